@@ -22,10 +22,11 @@ fn comp_code(kind: u8, c: u8) -> u8 {
 
 /// in-place reverse of an owned sequence (typed pre-state, head 0)
 macro_rules! rev_inplace {
-    ($A:ty, $al:expr, $L:expr) => {{
+    ($A:ty, $al:expr, $N:expr, $L:expr) => {{
         let b = <$A as Codec>::BITS as usize;
         let w = any_words::<2>();
-        let mut s = owned2::<$A>(w[0], w[1], $L);
+        let src = arr::<$A, { $N }, 2>(w);
+        let mut s = owned_cap(&src, 0, $L, $L);
         s.rev();
         assert!(s.len() == $L, "C07.rev.len");
         let i = any_usize();
@@ -39,10 +40,11 @@ macro_rules! rev_inplace {
 }
 
 macro_rules! comp_inplace {
-    ($A:ty, $al:expr, $kind:expr, $L:expr) => {{
+    ($A:ty, $al:expr, $kind:expr, $N:expr, $L:expr) => {{
         let b = <$A as Codec>::BITS as usize;
         let w = any_words::<2>();
-        let mut s = owned2::<$A>(w[0], w[1], $L);
+        let src = arr::<$A, { $N }, 2>(w);
+        let mut s = owned_cap(&src, 0, $L, $L);
         s.comp();
         assert!(s.len() == $L, "C07.comp.len");
         let i = any_usize();
@@ -58,10 +60,11 @@ macro_rules! comp_inplace {
 }
 
 macro_rules! revcomp_inplace {
-    ($A:ty, $al:expr, $kind:expr, $L:expr) => {{
+    ($A:ty, $al:expr, $kind:expr, $N:expr, $L:expr) => {{
         let b = <$A as Codec>::BITS as usize;
         let w = any_words::<2>();
-        let mut s = owned2::<$A>(w[0], w[1], $L);
+        let src = arr::<$A, { $N }, 2>(w);
+        let mut s = owned_cap(&src, 0, $L, $L);
         s.revcomp();
         let i = any_usize();
         assume(i < $L);
@@ -75,25 +78,24 @@ macro_rules! revcomp_inplace {
 }
 
 /// copying forms on a borrowed window at an offset: receiver untouched, result per oracle
+/// ($which: 0 = to_rev, 1 = to_comp, 2 = to_revcomp; one operation per harness)
 macro_rules! to_forms {
-    ($A:ty, $al:expr, $kind:expr, $N:expr, $o:expr, $n:expr) => {{
+    ($A:ty, $al:expr, $kind:expr, $N:expr, $o:expr, $n:expr, $which:expr) => {{
         let b = <$A as Codec>::BITS as usize;
         let w = any_words::<2>();
         let a = arr::<$A, { $N }, 2>(w);
         let win = &a[$o..$o + $n];
         let i = any_usize();
         assume(i < $n);
-        let which = any_u8();
-        assume(which < 3);
-        let r: Seq<$A> = if which == 0 { win.to_rev() } else if which == 1 { win.to_comp() } else { win.to_revcomp() };
-        let src = if which == 1 { i } else { $n - 1 - i };
+        let r: Seq<$A> = if $which == 0 { win.to_rev() } else if $which == 1 { win.to_comp() } else { win.to_revcomp() };
+        let src = if $which == 1 { i } else { $n - 1 - i };
         let old = $al.from_bits[sym(&w, $o * b, b, src) as usize] as u8;
-        let want = if which == 0 { old } else { $al.from_bits[comp_code($kind, old) as usize] as u8 };
+        let want = if $which == 0 { old } else { $al.from_bits[comp_code($kind, old) as usize] as u8 };
         assert!(r.len() == $n, "C07.to.len");
         assert!(r.nth(i).to_bits() == want, "C07.to.symbol");
         // the receiver still reads the old symbols
         assert!(win.nth(i).to_bits() == $al.from_bits[sym(&w, $o * b, b, i) as usize] as u8, "C07.to.receiver_untouched");
-        reach!(which == 2, "revcomp");
+        reach!("end");
         core::mem::forget(r);
     }};
 }
@@ -116,10 +118,10 @@ macro_rules! to_rev_only {
 }
 
 harnesses! {
-    fn c07_q_rev_dna_l4 [6] { rev_inplace!(Dna, oracle::DNA, 4) }
-    fn c07_q_rev_dna_l1 [3] { rev_inplace!(Dna, oracle::DNA, 1) }
+    fn c07_q_rev_dna_l4 [6] { rev_inplace!(Dna, oracle::DNA, 64, 4) }
+    fn c07_q_rev_dna_l1 [3] { rev_inplace!(Dna, oracle::DNA, 64, 1) }
     fn c07_q_rev_dna_l0 [3] {
-        let mut s = owned1::<Dna>(any_usize(), 0);
+        let mut s: Seq<Dna> = Seq::new();
         s.rev();
         assert!(s.len() == 0, "C07.rev.empty");
         s.comp();
@@ -129,29 +131,35 @@ harnesses! {
         reach!("end");
         core::mem::forget(s);
     }
-    fn c07_q_rev_amino_l3 [11] { rev_inplace!(Amino, oracle::AMINO, 3) }
-    fn c07_q_rev_miupac_l3 [9] { rev_inplace!(masked::Iupac, oracle::MIUPAC, 3) }
-    fn c07_t_rev_dna_l33 [35] { rev_inplace!(Dna, oracle::DNA, 33) }
-    fn c07_t_rev_iupac_l3 [8] { rev_inplace!(Iupac, oracle::IUPAC, 3) }
-    fn c07_t_rev_text_l2 [10] { rev_inplace!(text::Dna, oracle::TEXT_RAW, 2) }
-    fn c07_t_rev_degen_l5 [5] { rev_inplace!(degenerate::Dna, oracle::DEGEN, 5) }
-    fn c07_t_rev_amino_l11 [35] { rev_inplace!(Amino, oracle::AMINO, 11) }
+    fn c07_q_rev_amino_l3 [11] { rev_inplace!(Amino, oracle::AMINO, 21, 3) }
+    fn c07_q_rev_miupac_l3 [9] { rev_inplace!(masked::Iupac, oracle::MIUPAC, 25, 3) }
+    fn c07_t_rev_dna_l33 [35] { rev_inplace!(Dna, oracle::DNA, 64, 33) }
+    fn c07_t_rev_iupac_l3 [8] { rev_inplace!(Iupac, oracle::IUPAC, 32, 3) }
+    fn c07_t_rev_text_l2 [10] { rev_inplace!(text::Dna, oracle::TEXT_RAW, 16, 2) }
+    fn c07_t_rev_degen_l5 [5] { rev_inplace!(degenerate::Dna, oracle::DEGEN, 128, 5) }
+    fn c07_t_rev_amino_l11 [35] { rev_inplace!(Amino, oracle::AMINO, 21, 11) }
 
-    fn c07_q_comp_dna_l4 [6] { comp_inplace!(Dna, oracle::DNA, 0, 4) }
-    fn c07_q_comp_iupac_l3 [5] { comp_inplace!(Iupac, oracle::IUPAC, 1, 3) }
-    fn c07_q_comp_miupac_l3 [5] { comp_inplace!(masked::Iupac, oracle::MIUPAC, 2, 3) }
-    fn c07_t_comp_mdna_l3 [5] { comp_inplace!(masked::Dna, oracle::MDNA, 3, 3) }
-    fn c07_t_comp_degen_l3 [5] { comp_inplace!(degenerate::Dna, oracle::DEGEN, 4, 3) }
-    fn c07_t_comp_dna_l33 [35] { comp_inplace!(Dna, oracle::DNA, 0, 33) }
-    fn c07_t_comp_miupac_l13 [15] { comp_inplace!(masked::Iupac, oracle::MIUPAC, 2, 13) }
+    fn c07_q_comp_dna_l4 [6] { comp_inplace!(Dna, oracle::DNA, 0, 64, 4) }
+    fn c07_q_comp_iupac_l3 [5] { comp_inplace!(Iupac, oracle::IUPAC, 1, 32, 3) }
+    fn c07_q_comp_miupac_l3 [5] { comp_inplace!(masked::Iupac, oracle::MIUPAC, 2, 25, 3) }
+    fn c07_t_comp_mdna_l3 [5] { comp_inplace!(masked::Dna, oracle::MDNA, 3, 32, 3) }
+    fn c07_t_comp_degen_l3 [5] { comp_inplace!(degenerate::Dna, oracle::DEGEN, 4, 128, 3) }
+    fn c07_t_comp_dna_l33 [35] { comp_inplace!(Dna, oracle::DNA, 0, 64, 33) }
+    fn c07_t_comp_miupac_l13 [15] { comp_inplace!(masked::Iupac, oracle::MIUPAC, 2, 25, 13) }
 
-    fn c07_q_revcomp_dna_l3 [5] { revcomp_inplace!(Dna, oracle::DNA, 0, 3) }
-    fn c07_t_revcomp_iupac_l3 [8] { revcomp_inplace!(Iupac, oracle::IUPAC, 1, 3) }
-    fn c07_t_revcomp_miupac_l3 [9] { revcomp_inplace!(masked::Iupac, oracle::MIUPAC, 2, 3) }
+    fn c07_q_revcomp_dna_l3 [5] { revcomp_inplace!(Dna, oracle::DNA, 0, 64, 3) }
+    fn c07_t_revcomp_iupac_l3 [8] { revcomp_inplace!(Iupac, oracle::IUPAC, 1, 32, 3) }
+    fn c07_t_revcomp_miupac_l3 [9] { revcomp_inplace!(masked::Iupac, oracle::MIUPAC, 2, 25, 3) }
 
-    fn c07_q_to_dna_o31_n2 [4] { to_forms!(Dna, oracle::DNA, 0, 64, 31, 2) }
-    fn c07_q_to_dna_o5_n3 [5] { to_forms!(Dna, oracle::DNA, 0, 64, 5, 3) }
-    fn c07_t_to_iupac_o15_n2 [6] { to_forms!(Iupac, oracle::IUPAC, 1, 32, 15, 2) }
-    fn c07_t_to_miupac_o12_n2 [7] { to_forms!(masked::Iupac, oracle::MIUPAC, 2, 25, 12, 2) }
-    fn c07_q_to_rev_amino_o10_n2 [8] { to_rev_only!(Amino, oracle::AMINO, 21, 10, 2) }
+    fn c07_q_to_rev_dna_o31_n2 [4] { to_forms!(Dna, oracle::DNA, 0, 64, 31, 2, 0) }
+    fn c07_q_to_comp_dna_o31_n2 [4] { to_forms!(Dna, oracle::DNA, 0, 64, 31, 2, 1) }
+    fn c07_q_to_revcomp_dna_o31_n2 [4] { to_forms!(Dna, oracle::DNA, 0, 64, 31, 2, 2) }
+    fn c07_q_to_revcomp_dna_o5_n3 [5] { to_forms!(Dna, oracle::DNA, 0, 64, 5, 3, 2) }
+    fn c07_t_to_revcomp_iupac_o15_n2 [6] { to_forms!(Iupac, oracle::IUPAC, 1, 32, 15, 2, 2) }
+    fn c07_t_to_comp_iupac_o15_n2 [6] { to_forms!(Iupac, oracle::IUPAC, 1, 32, 15, 2, 1) }
+    fn c07_q_to_revcomp_miupac_o12_n1 [4] { to_forms!(masked::Iupac, oracle::MIUPAC, 2, 25, 12, 1, 2) }
+    fn c07_t_to_revcomp_miupac_o12_n2 [7] { to_forms!(masked::Iupac, oracle::MIUPAC, 2, 25, 12, 2, 2) }
+    fn c07_t_to_rev_miupac_o12_n2 [7] { to_forms!(masked::Iupac, oracle::MIUPAC, 2, 25, 12, 2, 0) }
+    fn c07_q_to_rev_amino_o10_n1 [4] { to_rev_only!(Amino, oracle::AMINO, 21, 10, 1) }
+    fn c07_t_to_rev_amino_o10_n2 [8] { to_rev_only!(Amino, oracle::AMINO, 21, 10, 2) }
 }
